@@ -42,7 +42,10 @@ func genDSA(r *Rng) dsaKey {
 
 func dsaSign(r *Rng, k dsaKey, msg []byte) []byte {
 	h := sha1.Sum(msg)
-	rr, ss, err := dsa.Sign(detRand{r}, k.priv, h[:])
+	// crypto/dsa reads, or does not read, one extra byte from its source at random
+	// (randutil.MaybeReadByte): a forked stream keeps the main PRNG's consumption deterministic
+	sub := &Rng{s: r.U64()}
+	rr, ss, err := dsa.Sign(detRand{sub}, k.priv, h[:])
 	if err != nil {
 		return make([]byte, 40)
 	}
